@@ -22,7 +22,8 @@ use datafusion_physical_plan::repartition::verif_hooks::{
 };
 use h_util::{arg, json_str, Rng};
 
-const WATCHDOG_S: u64 = 90;
+/// a threaded run normally ends within milliseconds
+const WATCHDOG_S: u64 = 30;
 
 struct LogWaker {
     id: u64,
@@ -849,7 +850,13 @@ fn main() {
         let rt = tokio::runtime::Builder::new_multi_thread().worker_threads(4).enable_time().build().unwrap();
         for i in 0..nstress {
             let s = rng.next();
-            println!("{}", stress_case(&rt, s, i));
+            let line = stress_case(&rt, s, i);
+            let hang = line.contains("\"hang\":true");
+            println!("{}", line);
+            if hang {
+                // the stuck tasks stay on the runtime: further runs would only wait for the watchdog again
+                break;
+            }
         }
         rt.shutdown_timeout(std::time::Duration::from_secs(1));
     }
